@@ -259,7 +259,7 @@ def gen_random(seed, i, safe=True):
                 C["busy"] = True
         if C["busy"]:
             continue
-        nw = rng.choice([0, 0, 1, 1, 2, 3, 5, 6])
+        nw = rng.choice([0, 1, 2, 2, 3, 3, 4, 4, 5, 6])
         pk = 1000 + 10 * c
         depth, plid = 0, 2000 + 10 * c
         for j in range(nw):
